@@ -51,8 +51,16 @@ def patch_results(rows, fixes):
     for line in open(path).read().splitlines():
         m = re.match(r'\| (\S+) \|', line)
         out.append(new.pop(m.group(1)) if m and m.group(1) in new else line)
-    if new:
-        sys.exit(f'rows not found in RESULTS.md: {sorted(new)}')
+    # rows that are not in the file yet: seeds go to the end of the first
+    # table, fix reverts to the end of the file
+    fix_ids = {r[0] for r in fixes}
+    head = next((i for i, l in enumerate(out)
+                 if l.startswith('# Reverting each fix')), len(out))
+    seed_rows = [new[k] for k in sorted(new) if k not in fix_ids]
+    while head > 0 and not out[head - 1].strip():
+        head -= 1
+    out[head:head] = seed_rows
+    out += [new[k] for k in sorted(new) if k in fix_ids]
     open(path, 'w').write('\n'.join(out) + '\n')
 
 
